@@ -15,6 +15,9 @@ func (reg *Registry[E]) ReadFrom(r io.Reader) (int64, error) {
 		return n, err
 	}
 
+	if length < 0 {
+		return n, errors.New("registry: negative length")
+	}
 	reg.Clear()
 
 	var key pk.Identifier
@@ -53,6 +56,9 @@ func (reg *Registry[E]) ReadTagsFrom(r io.Reader) (int64, error) {
 		return n, err
 	}
 
+	if count < 0 {
+		return n, errors.New("registry: negative tag count")
+	}
 	var tag pk.Identifier
 	var length pk.VarInt
 	for i := 0; i < int(count); i++ {
@@ -69,6 +75,9 @@ func (reg *Registry[E]) ReadTagsFrom(r io.Reader) (int64, error) {
 		}
 
 		n += n1 + n2
+		if length < 0 {
+			return n, errors.New("registry: negative tag length")
+		}
 		values := make([]*E, length)
 
 		var id pk.VarInt
